@@ -1,3 +1,4 @@
+import re
 """Helpers for rules over rustc MIR facts (engine E2) and the Rust halves of C-side properties."""
 from common import *  # noqa: F401,F403
 
@@ -153,6 +154,82 @@ def cond_text(fn, cond, truth, deep=False):
     return (deep_text(fn, d, user=False) if deep else inline_text(fn, d)), truth
 
 
+_CONJ_MEMO = {}
+
+
+def conj_summary(h):
+    """For a loop-free bool helper: the (text, truth) facts that hold on *every* path on which it can
+    return true — branch outcomes plus the final value expression.  None if not analysable."""
+    key = (id(h.facts) if hasattr(h, "facts") else 0, h.name)
+    if key in _CONJ_MEMO:
+        return _CONJ_MEMO[key]
+    res = None
+    try:
+        entry = min(h.blocks)
+        paths = []
+
+        def walk_paths(b, facts, seen, ret0):
+            if len(paths) > 64 or b in seen:
+                raise RuntimeError("loop or too many paths")
+            blk = h.blocks[b]
+            for el in blk.elems:
+                e = el.get("e", el) if isinstance(el, dict) and "k" not in el else el
+                for n in own_walk(strip(e)):
+                    if n.get("k") == "assign" and show(n["l"]) == "_0":
+                        ret0 = n["r"]
+            if not blk.succs or b == h.exit:
+                paths.append((facts, ret0))
+                return
+            c = h.cond(b)
+            for edge in blk.succs:
+                f2 = facts
+                if c is not None and edge.lab in ("T", "F"):
+                    txt, t = cond_text(h, c, edge.lab == "T")
+                    f2 = facts | {(txt, t)}
+                walk_paths(edge.to, f2, seen | {b}, ret0)
+        walk_paths(entry, frozenset(), frozenset(), None)
+        sets = []
+        for facts, r0 in paths:
+            if r0 is None:
+                continue
+            r = strip(r0)
+            if r.get("k") == "int":
+                if not r.get("v"):
+                    continue            # returns false on this path
+                sets.append(set(facts))
+            else:
+                sets.append(set(facts) | {(inline_text(h, r), True)})
+        if sets:
+            res = set.intersection(*sets)
+    except (RuntimeError, RecursionError, KeyError):
+        res = None
+    _CONJ_MEMO[key] = res
+    return res
+
+
+def helper_facts(fn, cond):
+    """If the branch condition is a call of a crate-local bool helper with a conjunction summary,
+    the helper's facts with its parameters replaced by the call's arguments."""
+    d = cond_def(fn, cond)
+    if d.get("k") != "call" or not hasattr(fn, "facts"):
+        return []
+    h = next((f for f in fn.facts.fn_list if f.name == d.get("fn")), None)
+    if h is None or h is fn or len(h.blocks) > 40:
+        return []
+    summ = conj_summary(h)
+    if not summ:
+        return []
+    out = []
+    args = [inline_text(fn, a) for a in d.get("a", [])]
+    for txt, t in summ:
+        for p, a in zip(h.params, args):
+            base = a[1:] if a.startswith("&") else "*" + a
+            txt = txt.replace("(*%s)" % p["name"], base if base.startswith("(") else base)
+            txt = re.sub(r"\b%s\b" % re.escape(p["name"]), a, txt)
+        out.append((txt, t))
+    return out
+
+
 class TextGate(Monitor):
     """Must-pass-through gate for MIR: alternatives are (substring-tuple, want) tested against the
     inlined text of branch conditions; for `match` switches the text is `<scrutinee>=<Variant>` and
@@ -184,6 +261,12 @@ class TextGate(Monitor):
         for needles, want in self.alts:
             if t == want and all(n in txt for n in needles):
                 return 1
+        if t and truth is not None:
+            # a crate-local helper that is a plain conjunction: its conjuncts hold on the true edge
+            for htxt, ht in helper_facts(self.fn, cond):
+                for needles, want in self.alts:
+                    if ht == want and all(n in htxt for n in needles):
+                        return 1
         return m
 
     def exit(self, m, bid, s):
